@@ -27,6 +27,7 @@ theorem exec_transaction_date (m : Nat) (te : TypeEnv) (env : Env) (b : String) 
     (evalExpr (cbs (m + 2)) te env (Expr.call b "transaction_date" [])).exec s = (.ok (.ts d), s) := by
   have hbe : b.isEmpty = false := by
     cases hb : b.isEmpty <;> simp_all
+  rw [evalExpr_call _ _ _ _ _ _ (by decide)]
   simp only [evalExpr, evalExprs, exec_bind, exec_pure, hbs, Bool.false_eq_true, if_false, cbs]
   have hnp : ¬ (b = "public" ∨ b = "pg_catalog") := by simpa [hbe] using hbs
   rw [callFunc]
